@@ -15,7 +15,7 @@ RULE = ("all templates with up to 4 items over {atom, sub-list, unquote, splice,
         "unquote or splice")
 ASSUMPTIONS = []
 
-ITEMS = ["a", "1", '"s"', "(b c)", ",(tick 1)", ",x", ",@l0", ",@l1", ",@l3", "',x", "(d ,x)", "(e ,@l3 f)", ",@(progn (tick 2) l3)", "`(n ,x)", ",(list x x)", "()",
+ITEMS = [",@l4", ",d1", ",(car l4)", "(w ,@l4)", "a", "1", '"s"', "(b c)", ",(tick 1)", ",x", ",@l0", ",@l1", ",@l3", "',x", "(d ,x)", "(e ,@l3 f)", ",@(progn (tick 2) l3)", "`(n ,x)", ",(list x x)", "()",
          "(b . ,x)", "(b ',x)", "(c '(d ,@l3))", "(g (h . ,l3))", "(k `(m ,x))", "((n) . ,x)", "(lit 1 2)", "(o (p ',x) q)", "(r . ,(tick 3))", "#',x", "#'(lambda (q) ,x)", "(mapcar #',x ',l3)", "#'(f ,@l3)", "'#',x"]
 
 def construction(items, tail):
@@ -34,6 +34,10 @@ def construction(items, tail):
         elif it == "((n) . ,x)": parts.append("(list (cons '(n) x))")
         elif it.startswith("#'") or it.startswith("'#'") or "#'," in it: return None
         elif it in ("(b ',x)", "(c '(d ,@l3))", "(k `(m ,x))", "(o (p ',x) q)", "(r . ,(tick 3))"): return None
+        elif it == ",@l4": parts.append("l4")
+        elif it == ",d1": parts.append("(list d1)")
+        elif it == ",(car l4)": parts.append("(list (car l4))")
+        elif it == "(w ,@l4)": parts.append("(list (append '(w) l4))")
         else: parts.append("'(%s)" % it)
     t = "nil" if tail is None else tail[1:] if tail.startswith(",") else "'" + tail
     return "(append %s %s)" % (" ".join(parts), t)
@@ -55,7 +59,7 @@ def generate(tier, seed):
         temps.append(([rng.choice(ITEMS) for _ in range(n)], rng.choice([None, None, ",x", ",l1"])))
     lines = []
     nt = set()
-    setup = "(setq x 'vx) (setq l0 nil) (setq l1 '(one)) (setq l3 '(p q r)) (setq li '(i . j))"
+    setup = "(setq x 'vx) (setq l0 nil) (setq l1 '(one)) (setq l3 '(p q r)) (setq li '(i . j)) (setq n 0) (setq l4 '((a ,(setq n (+ n 1))) `(b ,@l1) ',x ,@l3 (c . ,x))) (setq d1 ',(setq n (+ n 10)))"
     for items, tail in temps:
         txt = "(" + " ".join(items) + (" . " + tail if tail else "") + ")"
         if any("," in i for i in items) or (tail and "," in tail): nt.add(txt)
@@ -64,7 +68,7 @@ def generate(tier, seed):
         if cons and "tick" not in txt:
             lines.append("EVAL (equal `%s %s)" % (txt, cons))
         lines += ["EVAL (setq tpl '`%s) (setq r1 (eval tpl)) (setq r2 (eval tpl)) (list (equal r1 r2) r2)" % txt.replace("(tick", "(progn"),
-                  "EVAL (list x l0 l1 l3 tpl)"]
+                  "EVAL (list x l0 l1 l3 tpl n l4 d1)"]
         if items and rng.random() < 0.5:      # (the empty template evaluates to its own literal nil, like a quoted constant)
             # result 1 (and a list nested in it) is extended IN PLACE through the Rust API; the template, the spliced lists, result 2 and
             # a fresh evaluation must be what they were (results share no cell — not even the terminating nil — with the template or each other)
@@ -73,7 +77,7 @@ def generate(tier, seed):
             idx, nested = 0, []
             for it in items:
                 if it in ("(d ,x)", "(e ,@l3 f)"): nested.append(idx)
-                idx += {",@l0": 0, ",@l1": 1, ",@l3": 3, ",@(progn (tick 2) l3)": 3}.get(it, 1)
+                idx += {",@l0": 0, ",@l1": 1, ",@l3": 3, ",@(progn (tick 2) l3)": 3, ",@l4": 5}.get(it, 1)
             if nested:
                 lines.append("PUSHVAR r1 %sa 78" % ("d" * rng.choice(nested)))
             lines += ["PUSHVAR r1 - 77", "EVAL (list r2 (eval tpl) x l0 l1 l3 tpl)", "PUSHVAR r2 - 79", "EVAL (list (eval tpl) x l0 l1 l3 tpl)"]
